@@ -138,6 +138,32 @@ def gen_size(rng, large):
     return [W] if rng.random() < 0.3 else [W, H]
 
 
+RATIOS = [0.25, 0.4, 0.5, 0.75, 1.0, 2.0]
+CELL_SIZES = [[10, 20], [8, 16], [10, 10], [7, 21], [12, 16], [9, 18]]
+
+
+def gen_env(rng):
+    """An environment change: the global cell ratio (a number / AutoCellRatio with another cell size), the terminal size."""
+    r = rng.random()
+    if r < 0.45:
+        return {"ratio": rng.choice(RATIOS)}
+    if r < 0.8:
+        return {"ratio": rng.choice(["dynamic", "dynamic", "fixed"]), "cell_size": rng.choice(CELL_SIZES)}
+    if r < 0.9:
+        return {"cell_size": rng.choice(CELL_SIZES)}
+    return {"term_size": rng.choice([[80, 30], [20, 10], [5, 4], [200, 60]])}
+
+
+def with_env_steps(rng, steps, p=0.6):
+    """Environment changes after the widgets' construction: before the first render and between later steps."""
+    out = []
+    for k, st in enumerate(steps):
+        if st[0] == "render" and rng.random() < (p if k == 0 else p / 2):
+            out.append(["env", gen_env(rng)])
+        out.append(st)
+    return out
+
+
 def gen_history(rng, large=False):
     """Several renders of one widget — or of two widgets sharing the image — at different sizes,
     requests on earlier canvases in between and afterwards."""
@@ -166,6 +192,29 @@ def gen_history(rng, large=False):
     else:
         steps = rng.choice([[R[0], R[1], T(0), T(1), R[2], T(0), T(2)], [R[0], R[1], R[2], T(0), T(1), T(2)],
                             [R[0], T(0), R[1], R[2], T(1), T(0)]])
+    h["steps"] = with_env_steps(rng, steps) if rng.random() < 0.6 else steps
+    return h
+
+
+def gen_flow_history(rng):
+    """Long-lived flow widgets (upscaling and not) of one image laid out at several widths under a changing environment;
+    cheap (few requests): the point is rows() against render()."""
+    c = gen_case(rng)
+    if c["style"] == "block":
+        c["img"]["size"] = [rng.randint(1, 12), rng.randint(1, 24)]
+    h = to_history(c)
+    w2 = dict(h["widgets"][0]); w2["upscale"] = not w2["upscale"]; w2["spec"] = fmt_spec(w2)
+    h["widgets"].append(w2)
+    h["cache"] = False
+    steps = []
+    n = 0
+    for _ in range(rng.randint(2, 4)):
+        steps.append(["env", gen_env(rng)])
+        for _ in range(rng.randint(1, 3)):
+            steps.append(["render", rng.randrange(2), [rng.randint(1, 16)]])
+            if rng.random() < 0.3:
+                steps.append(["trim", n, [[0, 0, None, None], [0, 0, 1, 1]]])
+            n += 1
     h["steps"] = steps
     return h
 
@@ -191,12 +240,26 @@ def corpus_histories():
                           ["trim", 2, "all"], ["trim", 1, "all"]])
     h["cache"] = True
     cs.append(h)
+    # flow widgets (not upscaling / upscaling) of a 10x20-pixel image constructed at cell ratio 0.5, laid out after the ratio
+    # was changed (number, DYNAMIC with another cell size, FIXED), at widths where the original size fits / does not fit
+    f = dict(base); f["img"] = {"mode": "RGB", "size": [10, 20], "seed": 4, "kind": "runs"}
+    h = to_history(f, [["render", 0, [10]], ["env", {"ratio": 1.0}], ["render", 0, [12]], ["render", 1, [12]], ["render", 0, [6]],
+                       ["env", {"ratio": "dynamic", "cell_size": [10, 10]}], ["render", 0, [10]], ["render", 1, [7]],
+                       ["env", {"ratio": 0.25}], ["render", 0, [15]], ["trim", 1, "all"],
+                       ["env", {"ratio": "fixed", "cell_size": [7, 21]}], ["render", 0, [11]], ["render", 1, [3]],
+                       ["env", {"term_size": [5, 4]}], ["render", 0, [13]]])
+    w2 = dict(h["widgets"][0]); w2.update(upscale=True); w2["spec"] = fmt_spec(w2)
+    h["widgets"].append(w2)
+    cs.append(h)
     # graphics
     g = {"style": "kitty", "img": {"mode": "RGB", "size": [60, 90], "seed": 3, "kind": "runs"}, "alpha": "", "style_spec": "+L",
          "term": "", "disguise": [1, 1], "upscale": False, "ha": 1, "va": 1, "via": "content", "max_exh": list(MAX_EXH),
          "n_random": 60, "rseed": 2, "size": [7, 6]}
     g["spec"] = fmt_spec(g)
     cs.append(to_history(g, [["render", 0, [7, 6]], ["render", 0, [4, 6]], ["trim", 0, "all"], ["trim", 1, "all"]]))
+    # graphics flow widget, the terminal's cell size changes after construction
+    cs.append(to_history(g, [["render", 0, [7]], ["env", {"cell_size": [12, 16]}], ["render", 0, [7]], ["render", 0, [4]],
+                             ["trim", 0, "all"], ["env", {"cell_size": [7, 21]}], ["render", 0, [9]], ["trim", 1, "all"]]))
     return cs
 
 
@@ -276,6 +339,14 @@ def enc_rows(rows, aux):
     return "[" + ";\n".join(out) + "]%uint63"
 
 
+def flow_t(c, r):
+    """[upscale; maxcol; fit; original; rows() before / after rendering] of a flow render (TrimTie.c_flow)."""
+    if len(c["size"]) != 1 or "fit" not in r:
+        return "[]"
+    vals = [int(bool(c["upscale"])), c["size"][0], *r["fit"], *r["ori"], r.get("rows_method", -1), r.get("rows_method_after_fresh", -1)]
+    return "[" + ";".join(core.z(v).replace("%Z", "") for v in vals) + "]"
+
+
 def case_term(c, r):
     W, H = r["size"]
     w, h = r["image_size"]
@@ -288,7 +359,7 @@ def case_term(c, r):
     return (f"(let aux := {aux_t} in {{| c_gfx := {R.b(not r['text'])}; c_d := {expected_disguise(c)}%nat; c_W := {W}; c_H := {H}; "
             f"c_w := {w}; c_h := {h}; c_ha := {al(c['ha'])}%nat; c_va := {al(c['va'])}%nat; "
             f"c_lines := dec_rows aux {lines_t}; c_tbl := dec_rows aux {tbl_t}; "
-            f"c_fd := {max(r['fd'], 0)}; c_full := {idx_t(r['full'])}; c_obs := {obs} |}})")
+            f"c_fd := {max(r['fd'], 0)}; c_full := {idx_t(r['full'])}; c_obs := {obs}; c_flow := {flow_t(c, r)} |}})")
 
 
 def describe(c, r=None):
@@ -307,9 +378,10 @@ def python_oracle(c, r):
     why = []
     W, H = r["size"]
     if len(c["size"]) == 1:
-        if r.get("rows_method") != H or r.get("rows_method_after") != H:
+        if r.get("rows_method") != H or r.get("rows_method_after") != H or r.get("rows_method_after_fresh") != H:
             why.append(f"flow widget: rows() announced {r.get('rows_method')} (after rendering: "
-                       f"{r.get('rows_method_after')}), the canvas has {H} rows")
+                       f"{r.get('rows_method_after')} through urwid's cache, {r.get('rows_method_after_fresh')} uncached), "
+                       f"the canvas has {H} rows (environment at that render: {r.get('env')})")
         if W != c["size"][0]:
             why.append(f"flow widget: canvas is {W} columns wide for maxcol={c['size'][0]}")
     elif [W, H] != list(c["size"]):
@@ -398,52 +470,68 @@ def first_failure(h, entry):
     return None
 
 
-def drop_render(h, ordinal):
-    """The history without its `ordinal`-th render step (requests on that canvas dropped, later ordinals shifted)."""
+def drop_step(h, i):
+    """The history without step i (a dropped render takes the requests on its canvas with it; later ordinals shift)."""
     d = copy.deepcopy(h)
-    steps, n = [], -1
-    for st in h["steps"]:
-        if st[0] == "render":
-            n += 1
-            if n != ordinal:
-                steps.append(st)
-        elif st[1] != ordinal:
-            steps.append(["trim", st[1] - (st[1] > ordinal), st[2]])
+    st = h["steps"][i]
+    if st[0] != "render":
+        del d["steps"][i]
+        return d
+    ordinal = sum(x[0] == "render" for x in h["steps"][:i])
+    steps = []
+    for j, x in enumerate(h["steps"]):
+        if j == i:
+            continue
+        if x[0] == "trim":
+            if x[1] == ordinal:
+                continue
+            x = ["trim", x[1] - (x[1] > ordinal), x[2]]
+        steps.append(copy.deepcopy(x))
     d["steps"] = steps
     return d
 
 
-def pinned(h, r, k, trim, si):
-    """Renders up to step `si`, then only the failing request (on the render ordinal of canvas k)."""
-    d = copy.deepcopy(h)
-    ordinal = r["alias"].index(k)
-    d["steps"] = [st for st in h["steps"][:si] if st[0] == "render"] + [["trim", ordinal, [trim]]]
-    return d, ordinal
+def fewer_steps(h):
+    """Greedily drops steps while the history still fails (code >= 2)."""
+    best = h
+    changed = True
+    while changed and len(best["steps"]) > 1:
+        changed = False
+        cands = [drop_step(best, i) for i in reversed(range(len(best["steps"])))]
+        cands = [d for d in cands if any(x[0] == "render" for x in d["steps"])]
+        if not cands:
+            break
+        res, _e = evaluate(cands, "c17_shrink")
+        for d, e in zip(cands, res):
+            if e[0] & 2:
+                best, changed = d, True
+                break
+    return best
 
 
 def shrink(h, entry):
     """Smallest failing request; then fewer steps; then greedily smaller images / sizes that still fail."""
-    ff = first_failure(h, entry)
+    trim = None
+    ff = first_failure(h, entry) if not entry[1] else None
+    best = h
+    if ff:
+        k, trim, si = ff
+        d = copy.deepcopy(h)
+        ordinal = entry[2]["alias"].index(k)
+        d["steps"] = [copy.deepcopy(st) for st in h["steps"][:si] if st[0] != "trim"] + [["trim", ordinal, [trim]]]
+        res, _e = evaluate([d], "c17_shrink")
+        if res[0][0] & 2:
+            best = d
+    else:  # a failure that needs no request (rows() against render(), an exception ...): try without any request first
+        d = copy.deepcopy(h)
+        d["steps"] = [copy.deepcopy(st) for st in h["steps"] if st[0] != "trim"]
+        if any(st[0] == "render" for st in d["steps"]):
+            res, _e = evaluate([d], "c17_shrink")
+            if res[0][0] & 2:
+                best = d
+    best = fewer_steps(best)
     if not ff:
-        return h, None
-    k, trim, si = ff
-    best, ordinal = pinned(h, entry[2], k, trim, si)
-    res, _e = evaluate([best], "c17_shrink")
-    if not (res[0][0] & 2):
-        return h, trim
-    # drop renders that are not needed (one at a time, the failing canvas's own render excluded)
-    changed = True
-    while changed:
-        changed = False
-        n_r = sum(st[0] == "render" for st in best["steps"])
-        cands = [(j, drop_render(best, j)) for j in range(n_r) if j != ordinal]
-        if not cands:
-            break
-        res, _e = evaluate([d for _, d in cands], "c17_shrink")
-        for (j, d), e in zip(cands, res):
-            if e[0] & 2:
-                best, ordinal, changed = d, ordinal - (j < ordinal), True
-                break
+        return best, None
     # smaller image / sizes, asking for every request again
     for _ in range(5):
         cands = []
@@ -456,17 +544,18 @@ def shrink(h, entry):
                 for k2 in range(len(st[2])):
                     if st[2][k2] > 1:
                         d = copy.deepcopy(best); d["steps"][si2][2][k2] -= 1; cands.append(d)
+        cands = [d for d in cands if d["steps"][-1][0] == "trim"]
         for d in cands:
             d["steps"][-1][2] = "all"
         found = None
         if cands:
             res, _e = evaluate(cands, "c17_shrink")
             for d, e in zip(cands, res):
-                if e[0] & 2 and "canvases" in e[2]:
-                    ff = first_failure(d, e)
-                    if ff and e[2]["alias"][d["steps"][-1][1]] == ff[0]:
-                        d["steps"][-1][2] = [ff[1]]
-                        found, trim = d, ff[1]
+                if e[0] & 2 and "canvases" in e[2] and not e[1]:
+                    f2 = first_failure(d, e)
+                    if f2 and e[2]["alias"][d["steps"][-1][1]] == f2[0]:
+                        d["steps"][-1][2] = [f2[1]]
+                        found, trim = d, f2[1]
                         break
         if not found:
             break
@@ -512,19 +601,22 @@ def run(ctx):
         c = ctx.replay["replay"]["case"]
         hs = [c if "steps" in c else to_history(c)]
     else:
-        n_small, n_large, n_hist, n_hist_large = (16, 5, 14, 4) if ctx.quick else (400, 100, 500, 100)
+        n_small, n_large, n_hist, n_hist_large, n_flow = (14, 4, 14, 4, 12) if ctx.quick else (400, 100, 500, 100, 600)
         hs = ([to_history(c) for c in corpus()] + corpus_histories()
               + [to_history(gen_case(rng)) for _ in range(n_small)]
               + [to_history(gen_case(rng, large=True)) for _ in range(n_large)]
               + [gen_history(rng) for _ in range(n_hist)]
-              + [gen_history(rng, large=True) for _ in range(n_hist_large)])
+              + [gen_history(rng, large=True) for _ in range(n_hist_large)]
+              + [gen_flow_history(rng) for _ in range(n_flow)])
     res, errors = evaluate(hs, "c17")
     failures, mismatches = [], []
     hist = {"style": {}, "sizing": {}, "align": {}, "alpha": {}, "via": {}, "upscale": {}, "canvas_cells": {},
             "padded": {"h": 0, "v": 0, "none": 0}, "exhaustive_canvases": 0, "sampled_canvases": 0,
             "trims": 0, "default_args": 0, "cut": {},
             "histories": {"total": len(hs), "renders": {}, "widgets_sharing_image": 0, "canvas_cache_on": 0, "cache_hits": 0},
-            "requests_after_a_later_render": 0, "requests_after_image_size_changed": 0}
+            "requests_after_a_later_render": 0, "requests_after_image_size_changed": 0,
+            "environment": {"histories_with_changes": 0, "changes": {}, "flow_renders": 0, "flow_renders_after_a_change": 0,
+                            "flow_renders_upscale": 0, "flow_renders_original_size_used": 0, "cell_ratio_at_flow_render": {}}}
     distinct = set()
     n_shrunk = 0
     ci = 0
@@ -534,6 +626,12 @@ def run(ctx):
         hist["histories"]["renders"][str(nr)] = hist["histories"]["renders"].get(str(nr), 0) + 1
         hist["histories"]["widgets_sharing_image"] += len(h["widgets"]) > 1
         hist["histories"]["canvas_cache_on"] += bool(h.get("cache"))
+        envs = [(si, st[1]) for si, st in enumerate(h["steps"]) if st[0] == "env"]
+        hist["environment"]["histories_with_changes"] += bool(envs)
+        for _si, e in envs:
+            for k2, v2 in e.items():
+                key = f"{k2}={v2 if isinstance(v2, str) else ('number' if k2 == 'ratio' else 'changed')}"
+                hist["environment"]["changes"][key] = hist["environment"]["changes"].get(key, 0) + 1
         hist["style"][h["style"]] = hist["style"].get(h["style"], 0) + 1
         hist["via"][h.get("via", "content")] = hist["via"].get(h.get("via", "content"), 0) + 1
         for rec in r.get("canvases", []):
@@ -541,6 +639,16 @@ def run(ctx):
             c = view(h, rec)
             sk = "flow" if len(c["size"]) == 1 else "box"
             hist["sizing"][sk] = hist["sizing"].get(sk, 0) + 1
+            if sk == "flow" and "fit" in rec:
+                E = hist["environment"]
+                E["flow_renders"] += 1
+                E["flow_renders_after_a_change"] += any(si < rec["built_at"] for si, _e in envs)
+                E["flow_renders_upscale"] += bool(c["upscale"])
+                E["flow_renders_original_size_used"] += (not c["upscale"]) and rec["image_size"] == rec["ori"]
+                rk = f"{rec['env']['cell_ratio']:.3g}"
+                E["cell_ratio_at_flow_render"][rk] = E["cell_ratio_at_flow_render"].get(rk, 0) + 1
+                if any(si < rec["built_at"] for si, _e in envs):
+                    distinct.add((ci, "flow-after-env-change"))
             ak = f"{'d' if c['ha'] is None else H_CH[c['ha']]}{'d' if c['va'] is None else V_CH[c['va']]}"
             hist["align"][ak] = hist["align"].get(ak, 0) + 1
             hist["alpha"][c.get("alpha", "")] = hist["alpha"].get(c.get("alpha", ""), 0) + 1
@@ -569,9 +677,15 @@ def run(ctx):
             hist["histories"]["cache_hits"] += len(r["alias"]) - len(set(r["alias"]))
         if code & 2:
             trim = None
-            if "canvases" in r and not why and not ctx.replay and n_shrunk < 2:
+            if "canvases" in r and not ctx.replay and n_shrunk < 2:
                 n_shrunk += 1
                 sh, trim = shrink(h, entry)
+                if sh is not h:
+                    e2, _e = evaluate([sh], "c17_shrink")
+                    if e2[0][0] & 2:
+                        why = e2[0][1]
+                    else:
+                        sh, trim = h, None
             else:
                 sh = h
                 last = h["steps"][-1]
